@@ -132,6 +132,12 @@ func init() {
 		}
 		return i64(0)
 	})
+	setIntrinsic(hpath+"vAnd", func(ex *Exec, fn *ssa.Function, a []Value) Value { return And(a[0].(*Term), a[1].(*Term)) })
+	setIntrinsic(hpath+"vOr", func(ex *Exec, fn *ssa.Function, a []Value) Value { return Or(a[0].(*Term), a[1].(*Term)) })
+	setIntrinsic(hpath+"vNot", func(ex *Exec, fn *ssa.Function, a []Value) Value { return Not(a[0].(*Term)) })
+	setIntrinsic(hpath+"vIte", func(ex *Exec, fn *ssa.Function, a []Value) Value {
+		return Ite(a[0].(*Term), a[1].(*Term), a[2].(*Term))
+	})
 	setIntrinsic(hpath+"vSymbolic", func(ex *Exec, fn *ssa.Function, a []Value) Value { return trueT })
 	setIntrinsic(hpath+"vTrace", func(ex *Exec, fn *ssa.Function, a []Value) Value {
 		ex.tracing = true
